@@ -1,3 +1,4 @@
+import Mp.CueFunc3
 import Mp.CueFunc
 import Mp.CueFunc2
 import Mp.ProofsRK
@@ -12,3 +13,7 @@ import Mp.ProofsRK
 #print axioms Mp.element_type_of_typed_list
 #print axioms Mp.element_type_of_struct_list
 #print axioms Mp.element_type_after_call
+#print axioms Mp.lookup_self
+#print axioms Mp.over_long_rejected
+#print axioms Mp.asArray_twice_then_element
+#print axioms Mp.asArray_once_then_element
